@@ -263,6 +263,7 @@ func runC09(c *report.Ctx) {
 	ruleEligibility(c, true)
 	rulePendingInputsAppend(c)
 	ruleRollbackReverseOrder(c)
+	ruleLayout(c, []string{"outpoint-key", "credit-value"}, 12)
 }
 
 func loopContainsBlock(hdr, b *ssa.BasicBlock) bool {
